@@ -86,7 +86,7 @@ class Obj:
         self.fields = dict(fields or {})
 
 
-IMMUTABLE_CLASSES = {"ImmutableKnotVector"}     # value objects: shared between forked states, identity is meaningful
+IMMUTABLE_CLASSES = {"ImmutableKnotVector", "AbsKnotVector"}     # value objects: shared between forked states, identity is meaningful
 
 
 class Const:
@@ -612,6 +612,9 @@ class Engine:
             exc.id if isinstance(exc, ast.Name) else None
         if name is None:
             raise Unsupported("raise of a computed exception")
+        bound = st.env.get(name) if isinstance(exc, ast.Name) else None
+        if isinstance(bound, Const) and isinstance(bound.py, tuple) and bound.py[0] == "exception":
+            name = bound.py[1]          # `raise error` of an exception caught as `error`
         if isinstance(exc, ast.Call):   # message expressions are evaluated only for their (absent) effects
             pass
         tries = getattr(self, "_try_stack", [])
@@ -860,6 +863,20 @@ class Engine:
                 outs = [st]
                 self.loop_ord -= 1
                 raise Unsupported("for over a heterogeneous tuple")
+        if isinstance(seq, Mat):             # iterating a matrix yields its rows
+            mat = seq
+            st.env[cname] = IntC(0)
+            st.env["len_" + cname] = Num(mat.r, True)
+            guard_m = lambda s: s.env[cname].z < mat.r
+
+            def pre_m(s):
+                idx = s.env[cname].z
+                row = Seq(z3.Select(mat.arr, idx), mat.c, False)
+                self.assign(node.target, Tup([Num(idx, True), row]) if enum else row, s, exits)
+
+            def post_m(s):
+                s.env[cname] = Num(s.env[cname].z + 1, True)
+            return self.run_loop(node, st, exits, k, lc, guard_m, pre_m, post_m, node.body, node.orelse, modified)
         if not isinstance(seq, Seq):
             raise Unsupported("for over %r" % (seq,))
         st.env[cname] = IntC(0)
@@ -907,6 +924,8 @@ class Engine:
         for cls, es, line in pend:
             for h, names in zip(node.handlers, hnames):
                 if cls in names or "Exception" in names:
+                    if h.name:              # except X as name: the caught exception instance (only its class is modelled)
+                        es.env[h.name] = Const(("exception", cls))
                     outs.extend(self.exec_block(h.body, es, exits))
                     break
             else:
@@ -1039,6 +1058,11 @@ class Engine:
             i = fresh_int("in")
             ex = z3.Exists([i], z3.And(i >= 0, i < b.n, z3.Select(b.arr, i) == a.real()))
             return ex if op == "In" else z3.Not(ex)
+        if isinstance(a, Obj) or isinstance(b, Obj):         # rich comparison of objects by the contract of __eq__ / __ne__
+            o = a if isinstance(a, Obj) else b
+            h = self.c.calls.get("compare:%s:%s" % (op, o.cls))
+            if h is not None:
+                return to_bool(h.handler(self, st, [a, b], {}, node, exits))
         raise Unsupported("comparison %s of %r and %r at L%d" % (op, a, b, node.lineno))
 
     def e_BinOp(self, node, st, exits):
